@@ -358,6 +358,8 @@ func runC03(c *run.Ctx) {
 	families = append(families, collisionCases()...)
 	families = append(families, confusableCases()...)
 	families = append(families, deepMismatchCases()...)
+	families = append(families, fullStackCallCases()...)
+	families = append(families, signedZeroCases()...)
 	for i, pc := range families {
 		if !c.Mine(i) {
 			continue
